@@ -163,6 +163,17 @@ fn main() {
             println!("result: {}", gdsim::props::describe_result(&run.result, &run.crash).chars().take(300).collect::<String>());
             println!("peak_live={} largest={} allocations={}", run.alloc.peak_live, run.alloc.largest, run.alloc.count);
         }
+        "sleep-probe" => {
+            // a client that sleeps for an hour: the hour passes in the world, not on the wall
+            let t0 = std::time::Instant::now();
+            let w = gdsim::world::World::new(gdsim::tape::Tape::replay(Default::default()));
+            let (_, _, w, _) = gdsim::harness::run_in_world(w, || std::thread::sleep(std::time::Duration::from_secs(3600)));
+            let wall_inside = t0.elapsed();
+            let t1 = std::time::Instant::now();
+            std::thread::sleep(std::time::Duration::from_millis(50));
+            println!("inside a run: virtual clock advanced by {} s, wall {:?}; outside a run: a 50 ms sleep took {:?}", w.now / 1_000_000_000, wall_inside, t1.elapsed());
+            std::process::exit(if w.now == 3_600_000_000_000 && wall_inside.as_millis() < 1000 && t1.elapsed().as_millis() >= 50 { 0 } else { 2 });
+        }
         "dump-ports" => {
             // snapshot of the definitions table's default ports (golden data, committed)
             let mut m = std::collections::BTreeMap::new();
